@@ -23,7 +23,8 @@ OutSpace(m) == CASE m.k = "leaf" -> m.out [] m.k = "seq" -> OutSpace(m.ms[Len(m.
 \* Parallel.__init__ builds the input space left to right
 ParInOrdered(ms) == IF ms = <<>> THEN <<>> ELSE LET rest == ParInOrdered(SubSeq(ms, 1, Len(ms) - 1)) IN AddNew(rest, InSpace(ms[Len(ms)]))
 AbsD(a, b) == IF a > b THEN a - b ELSE b - a
-Close(u, v, tol) == Len(u) = Len(v) /\ \A i \in DOMAIN u : AbsD(u[i], v[i]) <= tol
+\* absolute tolerance for outputs of order 1..10, plus a relative part (2^-16) for large outputs: float32 carries 24 bits
+Close(u, v, tol) == Len(u) = Len(v) /\ \A i \in DOMAIN u : AbsD(u[i], v[i]) <= tol + ((IF u[i] < 0 THEN -u[i] ELSE u[i]) \div 65536)
 \* obs: sequence of [rid |-> row id, out |-> Seq(Int)]
 Functional(obs, tol) == \A i, j \in DOMAIN obs : obs[i].rid = obs[j].rid => Close(obs[i].out, obs[j].out, tol)
 =============================================================================
